@@ -40,13 +40,21 @@ type pathWalker struct {
 	events       []string
 	why          string          // reason when undecided
 	last         ssa.Instruction // the Return / Panic that ended the walk
+	lengths      bool            // represent slice values by their lengths
+	oob          bool            // a slice expression evaluated out of range
+	beyondLen    bool            // a reslice beyond len (within cap) was seen
+	maxSteps     int
 }
 
 // walk follows the path from block b (entered from pred, may be nil). It
 // returns "stop" when a stop block is reached, "return"/"panic" on exits, or
 // "undecided".
 func (w *pathWalker) walk(b, pred *ssa.BasicBlock) string {
-	for steps := 0; steps < 400; steps++ {
+	limit := 400
+	if w.maxSteps > 0 {
+		limit = w.maxSteps
+	}
+	for steps := 0; steps < limit; steps++ {
 		if pred != nil && w.stop != nil && w.stop(b) {
 			return "stop"
 		}
@@ -104,8 +112,24 @@ func (w *pathWalker) walk(b, pred *ssa.BasicBlock) string {
 						w.events = append(w.events, t)
 					}
 				}
+			case *ssa.Slice:
+				// length abstraction: a slice value is bound to its length
+				if w.lengths {
+					if n, ok := w.sliceLen(x); ok {
+						w.env.bind(x, n)
+					} else {
+						delete(w.env.vals, x)
+					}
+				}
 			case ssa.CallInstruction:
 				cc := x.Common()
+				if w.lengths && calleeName(cc) == "builtin:copy" && len(cc.Args) == 2 {
+					a, oka := w.env.eval(cc.Args[0])
+					b, okb := w.env.eval(cc.Args[1])
+					if v, isV := x.(ssa.Value); isV && oka && okb {
+						w.env.bind(v, min(a, b))
+					}
+				}
 				if calleeName(cc) == "builtin:len" && len(cc.Args) == 1 {
 					if n, ok := w.env.eval(cc.Args[0]); ok {
 						if v, isV := x.(ssa.Value); isV {
@@ -152,6 +176,55 @@ func (w *pathWalker) walk(b, pred *ssa.BasicBlock) string {
 }
 
 func (w *pathWalker) trackAll(string) bool { return false }
+
+// sliceLen: the length of the result of a slice expression when slices are
+// represented by their lengths (w.lengths): high - low, with the operand's
+// length (bound slice value, or the array length for a pointer to array) as
+// the default high bound.
+func (w *pathWalker) sliceLen(x *ssa.Slice) (int64, bool) {
+	lo := int64(0)
+	if x.Low != nil {
+		v, ok := w.env.eval(x.Low)
+		if !ok {
+			return 0, false
+		}
+		lo = v
+	}
+	var hi int64
+	if x.High != nil {
+		v, ok := w.env.eval(x.High)
+		if !ok {
+			return 0, false
+		}
+		hi = v
+	} else {
+		t := x.X.Type().Underlying()
+		if p, ok := t.(*types.Pointer); ok {
+			if a, ok := p.Elem().Underlying().(*types.Array); ok {
+				hi = a.Len()
+			} else {
+				return 0, false
+			}
+		} else if v, ok := w.env.vals[x.X]; ok {
+			hi = v
+		} else {
+			return 0, false
+		}
+	}
+	if hi < lo {
+		w.oob = true
+	}
+	// upper bound check against the operand
+	if p, ok := x.X.Type().Underlying().(*types.Pointer); ok {
+		if a, ok := p.Elem().Underlying().(*types.Array); ok && hi > a.Len() {
+			w.oob = true
+		}
+	} else if v, ok := w.env.vals[x.X]; ok && hi > v {
+		// reslicing beyond the length is legal up to cap; flagged, the rule decides
+		w.beyondLen = true
+	}
+	return hi - lo, true
+}
 
 // errNilCond evaluates `e == nil` / `e != nil` for an error-typed value e that
 // is the result of a call, under the assumption that the call succeeded.
